@@ -72,6 +72,11 @@ def run(ctx):
             cuts = sorted(set(rng.range(1, nb - 1) for _ in range(k))) if nb > 2 else []
             frees = tuple(i for i in range(len(cuts) + 1) if rng.chance(1, 3))
             add(f, rng.choice([1, 7, 30, 31, 100, 100000]), cuts, frees)
+        # fine-grained feeding of files with wide run-length prefixes: a run is interrupted again and again
+        if "wide-run" in f["desc"]:
+            for piece, lim in ((1, 100000), (1, 7), (3, 7), (5, 20), (2, 1), (64, 1)):
+                cuts = list(range(piece, nb, piece))
+                add(f, lim, cuts, tuple(i for i in range(0, len(cuts), 11)) if rng.chance(1, 2) else ())
         # one byte at a time
         if nb <= 700:
             add(f, rng.choice([5, 100000]), list(range(1, nb)), tuple(range(0, nb, 9)))
